@@ -388,6 +388,21 @@ def fixed_cases():
                      'rsrc': {'cpu': '0%', 'memory': '1K', 'disk': '0K',
                               'partition': 'p1', 'traits': ['a']}}],
         }),
+        # an update that re-sends the stored amounts and only adds a limited
+        # trait is still checked against that trait's limit
+        ('same-amounts-new-trait', {
+            'partitions': [_p('p1', '200%', '100G', '100G', [lim_a])],
+            'existing': [{'id': 't1/dev/c1',
+                          'rsrc': {'cpu': '150%', 'memory': '1G',
+                                   'disk': '1G', 'partition': 'p1',
+                                   'traits': ['b']}}],
+            'ops': [{'op': 'update', 'id': 't1/dev/c1', 'aim': 'same',
+                     'rsrc': {'cpu': '150%', 'memory': '1G', 'disk': '1G',
+                              'partition': 'p1', 'traits': ['a', 'b']}},
+                    {'op': 'update', 'id': 't1/dev/c1', 'aim': 'same',
+                     'rsrc': {'cpu': '150%', 'memory': '1G', 'disk': '1G',
+                              'partition': 'p1', 'rank': 50}}],
+        }),
         # explicit "partition": null - stored without the attribute, listed
         # as _default; whatever is accepted that way keeps counting against
         # _default (create, then update to null of a reservation of p1)
